@@ -29,6 +29,7 @@ CONSTANTS
  Variant = "%s"
  StartWithMain = TRUE
  Overwrite = TRUE
+ StartReg = TRUE
  Names <- MCNames
  MainFile = "main"
  Dirs <- MCDirs
